@@ -27,13 +27,22 @@ class DominanceInfo:
         pred: dict[Block, set[Block]] = {}
         for b in region.blocks:
             pred[b] = set()
-        for b in region.blocks:
+        # Get entry and other blocks
+        entry, *blocks = region.blocks
+
+        # Only blocks reachable from the entry block are predecessors: no path from
+        # the entry passes through an unreachable block, so edges leaving one must
+        # not remove dominators of the blocks they point to.
+        reachable: set[Block] = {entry}
+        worklist = [entry]
+        while worklist:
+            b = worklist.pop()
             if b.last_op is not None:
                 for s in b.last_op.successors:
                     pred[s].add(b)
-
-        # Get entry and other blocks
-        entry, *blocks = region.blocks
+                    if s not in reachable:
+                        reachable.add(s)
+                        worklist.append(s)
 
         # The entry block is only dominated by itself
         self._dominance[entry] = {entry}
